@@ -205,6 +205,8 @@ def real_cases(tier):
             out.append((name, 1e-2, 4, False, 2))
     if tier == 'quick':
         out.append(('one-affine', 1e-2, 3, True, 2))
+        # enough sweeps for the damped phase of the iteration (after the 10th sweep) with derived variables to compute afterwards
+        out.append(('deco-tree', 1e-6, 30, True, 1))
     # the same solve with another solver (same names, other coefficients) parsed and solved before every period
     for name in BLOCKS:
         if tier == 'quick' and name in ('three-coupled', 'two-oscillating', 'division-middle'):
